@@ -139,6 +139,8 @@ class Node:
     def text(self):
         if self.kind in ('entry', 'exit', 'raise_exit'):
             return '<%s>' % self.kind
+        if self.kind == 'resume':
+            return '<continue after finally>'
         if self.kind == 'test':
             return head(self.stmt)
         if self.kind in ('for', 'with', 'handler'):
@@ -373,7 +375,8 @@ class CFG:
             return kind == ('true' if v else 'false')
         return True
 
-    def reach_flags(self, starts, avoid=(), edge_ok=None, include_start=False, init=None):
+    def reach_flags(self, starts, avoid=(), edge_ok=None, include_start=False, init=None,
+                    states=False):
         """Like reach(), but tracks the values of the flag locals along each path and prunes
         branches on them (abstract interpretation of the guards only)."""
         flags = self.flag_names()
@@ -411,7 +414,14 @@ class CFG:
                 if (edge_ok is None or edge_ok(n, d, k)) and \
                         self._flag_edge_ok(self.nodes[n], k, dict(st2)):
                     work.append((d, st2))
+        if states:
+            return {(n, st) for n, st in seen}
         return {n for n, _ in seen}
+
+    def flag_states_at(self, nid):
+        """the flag valuations with which node *nid* can be reached from the entry"""
+        return [dict(st) for n, st in self.reach_flags([self.entry], include_start=True,
+                                                        states=True) if n == nid]
 
     def stats(self):
         return {'nodes': len(self.nodes), 'edges': sum(len(v) for v in self.succ.values())}
@@ -799,7 +809,12 @@ class Builder:
             n4, a4 = self._seq(st.finalbody, srcs, fctx)
             res_a += a4
             if n4:
-                res_a.append(Abrupt(kind, n4, toks))
+                # a pass-through node keeps the branch kinds of the edges that leave the copy
+                # apart from the kind of the continuation (exc / return / break / continue)
+                rn = g._new('resume', None, st, fctx.copy)
+                for s_, k_ in n4:
+                    g._edge(s_, rn, k_)
+                res_a.append(Abrupt(kind, [(rn, 'exc' if kind == 'exc' else 'next')], toks))
         return res_n, res_a
 
 
